@@ -153,6 +153,8 @@ ExtObjs ==
   \cup {ObjE(<<Fd("c", "d", x)>>) : x \in SuperVals}
   \cup {ObjE(<<Fd("b", v, N(20)), Fd("c", "d", <<"superf", "b">>)>>) : v \in Vis}
   \cup {ObjE(<<>>)}
+  \cup {ObjE(<<OAs(Bin(">", Dot(Self, "a"), N(k)), m)>>) : k \in {0, 5}, m \in {None, S(<<109>>)}}    \* assert-only
+  \cup {ObjE(<<OLoc("l", N(1))>>)}
 Observe(o) ==
   {o, Dot(o, "a"), Dot(o, "b"), Dot(o, "c"), Std("objectFields", <<o>>), Std("objectFieldsAll", <<o>>), Std("length", <<o>>),
    Bin("in", S(<<97>>), o), Std("objectHas", <<o, S(<<97>>)>>), Std("objectHasAll", <<o, S(<<98>>)>>),
